@@ -13,6 +13,7 @@ package main
 //                      by any error that wraps the driver's error.
 
 import (
+	"database/sql"
 	"encoding/json"
 	"fmt"
 	"math/rand"
@@ -20,6 +21,8 @@ import (
 	"sort"
 	"strings"
 	"sync"
+
+	"gorm.io/gorm"
 )
 
 var (
@@ -35,6 +38,8 @@ type c04Case struct {
 	Body    []interface{} `json:"body"`
 	Mask    []int         `json:"mask"`
 	AllowRb bool          `json:"allow_rb"`
+	PK      int           `json:"pk"` // which Go values stand for the panic payloads / user errors of the program (offset into the alphabets)
+	EK      int           `json:"ek"` // which Go value a failed COMMIT returns
 	body    []*c04Node
 }
 
@@ -66,6 +71,8 @@ func (g *c04Gen) body(d int, inTx bool, maxKids int, top bool) []*c04Node {
 			out = append(out, &c04Node{K: "w", ID: g.id(), Must: must})
 		case r < 37 && len(g.known) > 0:
 			out = append(out, &c04Node{K: "d", ID: g.known[g.rng.Intn(len(g.known))], Must: must})
+		case r < 40:
+			out = append(out, &c04Node{K: "u", ID: 1, Must: must})
 		case r < 47:
 			out = append(out, &c04Node{K: "q", Must: must})
 		case r < 57 && inTx:
@@ -83,9 +90,17 @@ func (g *c04Gen) body(d int, inTx bool, maxKids int, top bool) []*c04Node {
 		case r < 80 && r >= 66 && d > 0:
 			out = append(out, g.derive(d, inTx, maxKids, must))
 		case r < 84 && d > 0 && (!inTx || g.rng.Intn(4) == 0):
-			out = append(out, &c04Node{K: "man", Body: g.body(d-1, true, maxKids, false), Out: g.rng.Intn(2), Must: must})
+			nd := &c04Node{K: "man", Body: g.body(d-1, true, maxKids, false), Out: g.rng.Intn(2), Must: must}
+			if !inTx && g.rng.Intn(6) == 0 {
+				nd = g.withEnd(nd)
+			}
+			out = append(out, nd)
 		case d > 0:
-			out = append(out, &c04Node{K: "blk", Body: g.body(d-1, true, maxKids, false), Out: c04OutDist(g.rng), ID: g.tag(), Must: must})
+			nd := &c04Node{K: "blk", Body: g.body(d-1, true, maxKids, false), Out: c04OutDist(g.rng), ID: g.tag(), Must: must}
+			if !inTx && g.rng.Intn(6) == 0 {
+				nd = g.withEnd(nd)
+			}
+			out = append(out, nd)
 		default:
 			out = append(out, &c04Node{K: "w", ID: g.id(), Must: must})
 		}
@@ -107,6 +122,15 @@ func (g *c04Gen) derive(d int, inTx bool, maxKids int, must bool) *c04Node {
 		if g.rng.Intn(8) == 0 && len(g.known) > 0 {
 			n.ID = g.known[g.rng.Intn(len(g.known))] // an id the program inserts / deletes: `DELETE … id <> k AND id = k`
 		}
+	}
+	if c04SingleUse[kind] && g.rng.Intn(2) == 0 {
+		n.Body = g.reuseBody(d, inTx, maxKids)
+		return n
+	}
+	if g.rng.Intn(12) == 0 {
+		n.Kind = "chain:Finisher"
+		n.Body = append([]*c04Node{{K: "w", ID: g.id(), Must: true}}, g.reuseBody(d, inTx, maxKids)...)
+		return n
 	}
 	if !c04SingleUse[kind] {
 		n.Body = g.body(d-1, inTx, maxKids, false)
@@ -131,6 +155,86 @@ func (g *c04Gen) derive(d int, inTx bool, maxKids int, must bool) *c04Node {
 		n.Body = []*c04Node{g.derive(d-1, inTx, maxKids, m)}
 	}
 	return n
+}
+
+// reuseBody: SEVERAL operations through ONE chained (clone = 0) handle kept in a variable — `h := tx.Model(&T{}).Where(…)`, the
+// handle returned by a finisher, … — every one of them must run where the handle belongs (the block's transaction / the pool).
+// Operations that compose on a shared Statement: Create, Update of the non-key column, Find, SavePoint, RollbackTo; a Delete
+// (its key condition stays in the Statement) or a Transaction block only as the LAST one. All are `must`: a chained handle that
+// recorded an error refuses everything after it (gorm's documented behaviour for reused chains, not a matter of this property).
+func (g *c04Gen) reuseBody(d int, inTx bool, maxKids int) []*c04Node {
+	n := 2 + g.rng.Intn(3)
+	var out []*c04Node
+	var names []int64
+	seenQ := false
+	for i := 0; i < n; i++ {
+		switch r := g.rng.Intn(100); {
+		case r < 40:
+			out = append(out, &c04Node{K: "w", ID: g.id(), Must: true})
+		case r < 65 && !seenQ: // (a Find leaves its FROM clause in the shared Statement; UPDATE … FROM <same table> is rejected by SQLite)
+			out = append(out, &c04Node{K: "u", ID: 1, Must: true})
+		case r < 80:
+			seenQ = true
+			out = append(out, &c04Node{K: "q", Must: true})
+		case r < 90 && inTx:
+			nm := int64(1 + g.rng.Intn(3))
+			names = append(names, nm)
+			out = append(out, &c04Node{K: "sp", ID: nm, Must: true})
+		case inTx && len(names) > 0:
+			out = append(out, &c04Node{K: "rb", ID: names[g.rng.Intn(len(names))], Must: true})
+		default:
+			out = append(out, &c04Node{K: "w", ID: g.id(), Must: true})
+		}
+	}
+	switch r := g.rng.Intn(10); {
+	case r < 2 && len(g.known) > 0:
+		out = append(out, &c04Node{K: "d", ID: g.known[g.rng.Intn(len(g.known))], Must: true})
+	case r < 4 && d > 0:
+		// a Transaction invoked on the used handle clones its Statement with everything the earlier operations left in it
+		// (Model of the first Create, FROM of a Find): only creates and reads inside
+		blk := &c04Node{K: "blk", Out: c04OutDist(g.rng), ID: g.tag(), Must: g.rng.Intn(2) == 0}
+		for i, m := 0, 1+g.rng.Intn(3); i < m; i++ {
+			if g.rng.Intn(3) == 0 {
+				blk.Body = append(blk.Body, &c04Node{K: "q", Must: true})
+			} else {
+				blk.Body = append(blk.Body, &c04Node{K: "w", ID: g.id(), Must: g.rng.Intn(3) != 0})
+			}
+		}
+		out = append(out, blk)
+	}
+	return out
+}
+
+// endNode: somewhere below an outermost block / manual sequence the transaction is ended underneath the running function
+func (g *c04Gen) endNode(how int64) *c04Node { return &c04Node{K: "end", ID: how, Must: g.rng.Intn(4) != 0} }
+
+// withEnd puts ONE "end" node into the tree below the outermost transaction `root` (a blk or man node): Rollback() / Commit()
+// inside the function at a random position of a random body of the tree; a context cancellation as the last statement of the
+// outermost function (after it the handles answer with the context's error rather than sql.ErrTxDone — not modelled)
+func (g *c04Gen) withEnd(root *c04Node) *c04Node {
+	how := int64(g.rng.Intn(3))
+	if how == 1 {
+		root.Body = append(root.Body, g.endNode(1))
+		return &c04Node{K: "dv", Kind: "keep:WithCancel", Body: []*c04Node{root}, Must: root.Must}
+	}
+	// collect the bodies that are executed on handles of this transaction (not those of chained single-use handles)
+	bodies := []*c04Node{root}
+	var walk func(n *c04Node)
+	walk = func(n *c04Node) {
+		for _, c := range n.Body {
+			if c.K == "blk" || (c.K == "dv" && !c04SingleUse[c.Kind]) {
+				bodies = append(bodies, c)
+				walk(c)
+			}
+		}
+	}
+	walk(root)
+	b := bodies[g.rng.Intn(len(bodies))]
+	pos := g.rng.Intn(len(b.Body) + 1)
+	nb := append([]*c04Node{}, b.Body[:pos]...)
+	nb = append(nb, g.endNode(how))
+	b.Body = append(nb, b.Body[pos:]...)
+	return root
 }
 
 // exhaustive derive family: every derivation kind at every site — the block invoked ON the derived handle (top level and
@@ -177,6 +281,128 @@ func c04DeriveFamily() [][]*c04Node {
 			res = append(res, []*c04Node{dv(true, &c04Node{K: "man", Body: []*c04Node{w(1), outer("prep:Session", w(2)), q()}, Out: fin, Must: true}), q()})
 		}
 	}
+	return res
+}
+
+// c04ReuseFamily: every chained-handle kind kept in a variable and used for SEVERAL operations, at every site (top level, in a
+// block, in a manual sequence, in a nested block, below a per-session PrepareStmt handle), with every block outcome
+func c04ReuseFamily() [][]*c04Node {
+	var res [][]*c04Node
+	w := func(id int64) *c04Node { return &c04Node{K: "w", ID: id, Must: true} }
+	u := func() *c04Node { return &c04Node{K: "u", ID: 1, Must: true} }
+	q := func() *c04Node { return &c04Node{K: "q", Must: true} }
+	d := func(id int64) *c04Node { return &c04Node{K: "d", ID: id, Must: true} }
+	sp := func(n int64) *c04Node { return &c04Node{K: "sp", ID: n, Must: true} }
+	rb := func(n int64) *c04Node { return &c04Node{K: "rb", ID: n, Must: true} }
+	kinds := []string{"chain:Finisher", "chain:Model", "chain:Table", "chain:Set", "chain:Select", "initialized:Session", "where:Ne"}
+	for _, kind := range kinds {
+		arg := int64(0)
+		if kind == "where:Ne" {
+			arg = 102
+		}
+		seqs := func(inTx bool) [][]*c04Node {
+			out := [][]*c04Node{
+				{w(2), w(3)},
+				{w(2), u(), q()},
+				{u(), u(), w(2)},
+				{w(2), q(), w(3), d(2)},
+				{u(), w(2), &c04Node{K: "blk", Body: []*c04Node{w(3), q()}, Out: 1, ID: 7, Must: false}},
+			}
+			if inTx {
+				out = append(out, []*c04Node{w(2), sp(1), w(3), rb(1), q()})
+			}
+			if kind == "chain:Finisher" { // the first operation IS the finisher that returns the handle
+				out = [][]*c04Node{{w(2), w(3)}, {w(2), u(), q()}, {w(2), q(), w(3), d(2)}}
+				if inTx {
+					out = append(out, []*c04Node{w(2), sp(1), w(3), rb(1), q()})
+				}
+			}
+			return out
+		}
+		dv := func(kids []*c04Node) *c04Node { return &c04Node{K: "dv", Kind: kind, ID: arg, Body: kids, Must: true} }
+		for _, sq := range seqs(false) {
+			res = append(res, []*c04Node{w(1), dv(sq), q()}) // top level: every operation in its own implicit transaction
+		}
+		for out := 0; out < 3; out++ {
+			for _, sq := range seqs(true) {
+				res = append(res, []*c04Node{{K: "blk", Body: []*c04Node{w(1), dv(sq), q()}, Out: out, ID: 1, Must: false}, q()})
+				res = append(res, []*c04Node{{K: "blk", Body: []*c04Node{w(1),
+					{K: "blk", Body: []*c04Node{dv(sq), q()}, Out: out, ID: 1, Must: false}, q()}, Out: 0, ID: 2, Must: true}, q()})
+			}
+			sq := seqs(true)[out%len(seqs(true))]
+			res = append(res, []*c04Node{{K: "dv", Kind: "prep:Session", Body: []*c04Node{
+				{K: "blk", Body: []*c04Node{w(1), dv(sq), q()}, Out: out, ID: 1, Must: false}}, Must: true}, q()})
+		}
+		for fin := 0; fin < 2; fin++ {
+			for _, sq := range seqs(true) {
+				res = append(res, []*c04Node{{K: "man", Body: []*c04Node{w(1), dv(sq), q()}, Out: fin, Must: true}, q()})
+			}
+		}
+	}
+	return res
+}
+
+// c04EndFamily: the transaction is ended underneath the function (Rollback() / Commit() inside it, cancelled context) at every
+// position (before / between / after the writes; in the outermost function, in a nested block, through a Session-derived
+// handle), for every outcome of the function, for blocks and manual sequences
+func c04EndFamily() [][]*c04Node {
+	var res [][]*c04Node
+	w := func(id int64) *c04Node { return &c04Node{K: "w", ID: id, Must: true} }
+	wi := func(id int64) *c04Node { return &c04Node{K: "w", ID: id, Must: false} }
+	q := func() *c04Node { return &c04Node{K: "q", Must: true} }
+	for how := int64(0); how < 3; how++ {
+		end := func(must bool) *c04Node { return &c04Node{K: "end", ID: how, Must: must} }
+		wrap := func(root *c04Node) []*c04Node {
+			if how == 1 {
+				return []*c04Node{{K: "dv", Kind: "keep:WithCancel", Body: []*c04Node{root}, Must: false}, q(), w(9)}
+			}
+			return []*c04Node{root, q(), w(9)}
+		}
+		for out := 0; out < 3; out++ {
+			res = append(res, wrap(&c04Node{K: "blk", Body: []*c04Node{w(1), w(2), end(true)}, Out: out, ID: 1, Must: false}))
+			res = append(res, wrap(&c04Node{K: "blk", Body: []*c04Node{end(true)}, Out: out, ID: 1, Must: false}))
+			if how != 1 {
+				res = append(res, wrap(&c04Node{K: "blk", Body: []*c04Node{w(1), end(true), wi(2), end(false)}, Out: out, ID: 1, Must: false}))
+				res = append(res, wrap(&c04Node{K: "blk", Body: []*c04Node{w(1),
+					{K: "blk", Body: []*c04Node{w(2), end(true)}, Out: out, ID: 1, Must: false}, wi(3)}, Out: 0, ID: 2, Must: false}))
+				res = append(res, wrap(&c04Node{K: "blk", Body: []*c04Node{w(1),
+					{K: "dv", Kind: "keep:Session", Body: []*c04Node{w(2), end(true)}, Must: true}}, Out: out, ID: 1, Must: false}))
+				res = append(res, wrap(&c04Node{K: "blk", Body: []*c04Node{w(1), end(true),
+					{K: "blk", Body: []*c04Node{w(2)}, Out: 0, ID: 1, Must: false}}, Out: out, ID: 2, Must: false}))
+			}
+		}
+		for fin := 0; fin < 2; fin++ {
+			res = append(res, wrap(&c04Node{K: "man", Body: []*c04Node{w(1), end(true)}, Out: fin, Must: false}))
+		}
+	}
+	return res
+}
+
+// c04ValueFamily: a panic / an error raised at depth k below the outermost block travels up through `must` children; commit
+// faults on the plain shapes. Run with EVERY payload / user-error kind and EVERY commit-fault value.
+func c04ValueFamily() [][]*c04Node {
+	var res [][]*c04Node
+	w := func(id int64) *c04Node { return &c04Node{K: "w", ID: id, Must: true} }
+	for out := 1; out < 3; out++ {
+		for depth := 0; depth < 4; depth++ {
+			n := &c04Node{K: "blk", Body: []*c04Node{w(int64(depth + 1))}, Out: out, ID: 1, Must: true}
+			for k := depth - 1; k >= 0; k-- {
+				n = &c04Node{K: "blk", Body: []*c04Node{w(int64(k + 1)), n}, Out: 0, ID: int64(depth - k + 1), Must: true}
+			}
+			n.Must = false
+			res = append(res, []*c04Node{n, w(9)})
+		}
+		// recovered / ignored by the enclosing function, which then returns nil; and raised again with ANOTHER identity
+		res = append(res, []*c04Node{{K: "blk", Body: []*c04Node{w(1), {K: "blk", Body: []*c04Node{w(2)}, Out: out, ID: 1, Must: false}},
+			Out: 0, ID: 2, Must: true}})
+		res = append(res, []*c04Node{{K: "blk", Body: []*c04Node{w(1), {K: "blk", Body: []*c04Node{w(2)}, Out: out, ID: 1, Must: false}},
+			Out: out, ID: 2, Must: false}})
+		res = append(res, []*c04Node{{K: "man", Body: []*c04Node{w(1), {K: "blk", Body: []*c04Node{w(2)}, Out: out, ID: 1, Must: true}},
+			Out: 0, Must: false}})
+	}
+	res = append(res, []*c04Node{{K: "blk", Body: []*c04Node{w(1)}, Out: 0, ID: 1, Must: false}, w(2)})
+	res = append(res, []*c04Node{{K: "man", Body: []*c04Node{w(1)}, Out: 0, Must: false}, w(2)})
+	res = append(res, []*c04Node{{K: "blk", Body: []*c04Node{w(1), {K: "blk", Body: []*c04Node{w(2)}, Out: 0, ID: 1, Must: true}}, Out: 0, ID: 2, Must: false}, w(3)})
 	return res
 }
 
@@ -258,6 +484,7 @@ func c04Manual() []string {
 // ---------------------------------------------------------------- running and comparing
 
 type c04Runner struct {
+	seq    int
 	r      *Result
 	worlds map[c04Cfg]*c04World
 	cases  []*c04Case
@@ -282,7 +509,7 @@ func (cr *c04Runner) closeAll() {
 // run executes one case on the real code, judges it end to end and queues it for the comparison with the model
 func (cr *c04Runner) run(c *c04Case, suiteTag string) *c04Obs {
 	w := cr.world(c.Cfg)
-	o := c04Run(w, c.Initial, c.body, c.Mask, c.AllowRb)
+	o := c04Run(w, c.Initial, c.body, c.Mask, c.AllowRb, c.PK, c.EK)
 	if o.Open != 0 || o.InUse != 0 || (len(o.Store) == 1 && o.Store[0] == -1) {
 		w.close() // a leaked transaction poisons the shared in-memory database: start a fresh world
 		delete(cr.worlds, c.Cfg)
@@ -324,6 +551,11 @@ func (cr *c04Runner) flush() {
 		}
 		var ops [][]interface{}
 		for _, c := range cr.cases[start:end] {
+			if c04HasEndCommit(c.body) {
+				// Commit() called inside the function is judged end to end only: the empty program stands in
+				ops = append(ops, []interface{}{"tx.run", c.Cfg, []int{}, []int64{}, []interface{}{}, false})
+				continue
+			}
 			ops = append(ops, []interface{}{"tx.run", c.Cfg, c.Mask, c.Initial, c.Body, c.AllowRb})
 		}
 		for _, c := range cr.cases[start:end] {
@@ -338,7 +570,7 @@ func (cr *c04Runner) flush() {
 		// refinement covers: no RollbackTo node, no stale use of a poisoned handle (finding F18), no fault in a ROLLBACK TO
 		for i, c := range cr.cases[start:end] {
 			o := cr.obs[start+i]
-			if o.Stale || o.exec.rbFault || c04HasKind(c.body, "rb") {
+			if o.Stale || o.exec.rbFault || c04HasKind(c.body, "rb") || c04HasKind(c.body, "end") {
 				r.H("spec_vs_real", "outside the fragment")
 				continue
 			}
@@ -347,6 +579,7 @@ func (cr *c04Runner) flush() {
 				r.Violate(Violation{Kind: "correspondence", Suite: "spec", Input: c, Observed: o, Expected: string(outs[end-start+i]), Note: "reference rejects the program"})
 				continue
 			}
+			c04ModelRes(c, o, m)
 			r.H("spec_vs_real", "compared")
 			r.Case("spec", canon(c), len(o.exec.faulted) > 0)
 			real := canon(map[string]interface{}{"store": o.Store, "res": o.Res})
@@ -357,6 +590,11 @@ func (cr *c04Runner) flush() {
 		}
 		for i, c := range cr.cases[start:end] {
 			o := cr.obs[start+i]
+			if c04HasEndCommit(c.body) {
+				r.H("tie", "skipped: Commit() inside the function (end-to-end oracle only)")
+				continue
+			}
+			r.H("tie", "compared")
 			r.CorrCompared++
 			r.Case("tie", canon(c), len(o.exec.faulted) > 0)
 			var m map[string]interface{}
@@ -365,6 +603,7 @@ func (cr *c04Runner) flush() {
 				continue
 			}
 			delete(m, "rbfault")
+			c04ModelRes(c, o, m)
 			real := canon(o)
 			model := canon(m)
 			if real != model {
@@ -404,9 +643,68 @@ func (cr *c04Runner) stats(c *c04Case, o *c04Obs) {
 			r.H("node_kind", k)
 		}
 	}
+	for k, n := range o.exec.payloadKinds {
+		for i := 0; i < n; i++ {
+			r.H("panic_payload_kind", k)
+		}
+	}
+	for k, n := range o.exec.userKinds {
+		for i := 0; i < n; i++ {
+			r.H("user_error_value_kind", k)
+		}
+	}
+	for k, n := range o.exec.endKinds {
+		for i := 0; i < n; i++ {
+			r.H("tx_ended_underneath", k)
+		}
+	}
+	for range o.exec.injVals {
+		r.H("commit_fault_value", c04CommitErrKindNames[c.EK%c04NCommitErrKinds])
+	}
 	for _, b := range o.exec.blocks {
 		r.H("block_fn_result", map[bool]string{true: b.FnRet, false: "not-run"}[b.FnRan])
 	}
+}
+
+// c04ModelRes: identities of the model whose Go value in this run is a SHARED sentinel are read the way the real side reads
+// them: a failed COMMIT's `inj k` as "txDone" (EK 1: raw sql.ErrTxDone, the value database/sql produces itself) or "cfault"
+// (EK 2-5: one sentinel for every failed COMMIT; the trace pins which one); a `user t` whose value is raw sql.ErrTxDone /
+// gorm.ErrInvalidTransaction as "txDone" / "invalidTx"
+func c04ModelRes(c *c04Case, o *c04Obs, m map[string]interface{}) {
+	res, _ := m["res"].([]interface{})
+	ek := c.EK % c04NCommitErrKinds
+	for i, a := range res {
+		var k int
+		var t int64
+		s, ok := a.(string)
+		if !ok {
+			continue
+		}
+		if _, e := fmt.Sscanf(s, "inj%d", &k); e == nil && k < len(o.Trace) && o.Trace[k] == "C!" {
+			if ek == 1 {
+				res[i] = "txDone"
+			} else if ek >= 2 && ek <= 5 {
+				res[i] = "cfault"
+			}
+		}
+		if _, e := fmt.Sscanf(s, "user%d", &t); e == nil {
+			switch o.exec.userVals[t] {
+			case error(sql.ErrTxDone):
+				res[i] = "txDone"
+			case error(gorm.ErrInvalidTransaction):
+				res[i] = "invalidTx"
+			}
+		}
+	}
+}
+
+func c04HasEndCommit(body []*c04Node) bool {
+	for _, n := range body {
+		if (n.K == "end" && n.ID == 2) || c04HasEndCommit(n.Body) {
+			return true
+		}
+	}
+	return false
 }
 
 func c04HasKind(body []*c04Node, k string) bool {
@@ -443,6 +741,9 @@ func c04Shape(body []*c04Node, d int) (depth, nodes int, kinds map[string]int) {
 		if k == "blk" {
 			k = fmt.Sprintf("blk/%s", []string{"nil", "err", "panic"}[n.Out])
 		}
+		if k == "end" {
+			k = fmt.Sprintf("end/%d", n.ID)
+		}
 		kinds[k]++
 		if n.K == "dv" {
 			k = "dv/" + n.Kind
@@ -451,6 +752,9 @@ func c04Shape(body []*c04Node, d int) (depth, nodes int, kinds map[string]int) {
 				if c.K == "blk" || c.K == "man" {
 					kinds["block-invoked-on-derived/"+strings.SplitN(n.Kind, ":", 2)[0]]++
 				}
+			}
+			if c04SingleUse[n.Kind] && len(n.Body) > 1 {
+				kinds["chained-handle-reused/"+map[bool]string{true: "inside-tx", false: "top-level"}[inTxShape]+"/"+fmt.Sprint(len(n.Body))+"-ops"]++
 			}
 			kinds[k]++
 			kinds[n.K]--
@@ -474,7 +778,18 @@ func c04Shape(body []*c04Node, d int) (depth, nodes int, kinds map[string]int) {
 	return
 }
 
-func mkCase(cfg c04Cfg, initial []int64, body []*c04Node, mask []int, allowRb bool) *c04Case {
+func mkCase(cfg c04Cfg, initial []int64, body []*c04Node, mask []int, allowRb bool, vk ...int) *c04Case {
+	c := mkCase0(cfg, initial, body, mask, allowRb)
+	if len(vk) > 0 {
+		c.PK = vk[0]
+	}
+	if len(vk) > 1 {
+		c.EK = vk[1]
+	}
+	return c
+}
+
+func mkCase0(cfg c04Cfg, initial []int64, body []*c04Node, mask []int, allowRb bool) *c04Case {
 	if mask == nil {
 		mask = []int{}
 	}
@@ -485,15 +800,24 @@ func mkCase(cfg c04Cfg, initial []int64, body []*c04Node, mask []int, allowRb bo
 }
 
 // allSingleFaults: the unfaulted run, then one run per driver call of the unfaulted run with that call failed
-func (cr *c04Runner) allSingleFaults(cfg c04Cfg, initial []int64, body []*c04Node) {
-	base := mkCase(cfg, initial, body, nil, false)
+func (cr *c04Runner) allSingleFaults(cfg c04Cfg, initial []int64, body []*c04Node, vk ...int) {
+	// the value alphabets rotate with the running case number unless the caller fixes them
+	cr.seq++
+	pk, ek := cr.seq%c04NPayloadKinds, (cr.seq/3)%c04NCommitErrKinds
+	if len(vk) > 0 {
+		pk = vk[0]
+	}
+	if len(vk) > 1 {
+		ek = vk[1]
+	}
+	base := mkCase(cfg, initial, body, nil, false, pk, ek)
 	o := cr.run(base, "base")
 	cr.stats(base, o)
 	for k := 0; k < len(o.Trace); k++ {
 		if o.Trace[k] == "R" {
 			continue // a driver ROLLBACK cannot be failed
 		}
-		c := mkCase(cfg, initial, body, []int{k}, true)
+		c := mkCase(cfg, initial, body, []int{k}, true, pk, ek)
 		cr.stats(c, cr.run(c, "single"))
 	}
 }
@@ -556,6 +880,46 @@ func init() {
 		}
 		cr.flush()
 
+		// 2c. round 2: values (every payload / user-error kind, every commit-fault value), transactions ended underneath,
+		//     chained handles reused for several operations — × rotating configurations × every single fault
+		if tier != "search" {
+			nk := c04NPayloadKinds
+			for i, body := range c04ValueFamily() {
+				for k := 0; k < nk; k++ {
+					cfg := cfgs[(i+3*k)%len(cfgs)]
+					cr.allSingleFaults(cfg, nil, body, k, k%c04NCommitErrKinds)
+				}
+			}
+			for i, body := range c04EndFamily() {
+				for j, cfg := range cfgs {
+					if tier == "quick" && (j+16-i%16)%16%4 != 0 {
+						continue
+					}
+					cr.allSingleFaults(cfg, nil, body)
+				}
+			}
+			for i, body := range c04ReuseFamily() {
+				for j, cfg := range cfgs {
+					if tier == "quick" && (j+16-i%16)%16%8 != 0 {
+						continue
+					}
+					cr.allSingleFaults(cfg, []int64{102}, body)
+				}
+				if len(cr.cases) >= 8000 {
+					cr.flush()
+				}
+				if expired() {
+					break
+				}
+			}
+			cr.flush()
+		}
+
+		// 2d. Statement.ConnPool of a chained handle after a write (tie with `writeSt` + the property seen on the handle itself)
+		if tier != "search" {
+			c04PoolSuite(r, tier, cr.world)
+		}
+
 		// 3. random trees, up to 3 faults
 		n := 1500
 		depth := 3
@@ -568,7 +932,8 @@ func init() {
 			g := &c04Gen{rng: rng, nextID: 0, known: []int64{100, 101}}
 			body := g.body(depth, false, 3, true)
 			cfg := cfgs[rng.Intn(len(cfgs))]
-			base := mkCase(cfg, []int64{100, 101, 102}, body, nil, false)
+			pk, ek := rng.Intn(c04NPayloadKinds), rng.Intn(c04NCommitErrKinds)
+			base := mkCase(cfg, []int64{100, 101, 102}, body, nil, false, pk, ek)
 			o := cr.run(base, "rand-base")
 			cr.stats(base, o)
 			calls := len(o.Trace)
@@ -584,7 +949,7 @@ func init() {
 				}
 				sort.Ints(mask)
 				// ROLLBACK TO statements are failed only in a minority of runs (those runs are compared with the model but not judged)
-				c := mkCase(cfg, []int64{100, 101, 102}, body, mask, rng.Intn(5) == 0)
+				c := mkCase(cfg, []int64{100, 101, 102}, body, mask, rng.Intn(5) == 0, pk, ek)
 				oo := cr.run(c, "rand")
 				cr.stats(c, oo)
 				if i < 3 && j == 0 {
@@ -646,7 +1011,7 @@ func c04Probe() {
 			if err != nil {
 				panic(err)
 			}
-			base := c04Run(w, []int64{100}, body, nil, false)
+			base := c04Run(w, []int64{100}, body, nil, false, 0, 0)
 			fmt.Printf("%s %s\n   -> %s %v\n", cfg, p, canon(base), base.exec.verdicts)
 		}
 		w.close()
